@@ -47,7 +47,10 @@ Check(m, e) ==
                      [] e.what = "clock" -> e.secs1000 + e.cbf * frame
                      [] e.what = "filter" -> e.secs1000 + frame + e.secs1000 \div 10
                      [] OTHER -> e.secs1000 + frame
-         IN IF e.ms < lo \/ e.ms > hi THEN "seconds_independent_of_sample_rate" ELSE ""
+         \* (echo_in_flight: the impulse came before a change of rate and its echo was due after it; the delay line may be
+         \*  cleared by the change - then no echo is heard, ms = -1 - but an echo that is heard comes at the delay time)
+         IN IF e.what = "echo_in_flight" /\ e.ms = -1 THEN ""
+            ELSE IF e.ms < lo \/ e.ms > hi THEN "seconds_independent_of_sample_rate" ELSE ""
     [] e.a = "panic" -> "no_panic"
     [] OTHER -> ""
 
